@@ -331,6 +331,20 @@ def rpe_cli(run, case, rng, work):
         delta = float(rng.integers(1, 6))
     elif du == "m":
         delta = float(fp["ext"] * 10.0**rng.uniform(-1.5, 0))
+        if o["correct_scale"] and rng.random() < .6:
+            # an estimate at a smaller metric scale (monocular): a delta longer than its raw path
+            # but well inside the scale-corrected one
+            try:
+                parse = rm.parse_kitti if fmt == "kitti" else rm.parse_tum
+                pe = parse(open(fp["est_path"]).read())[0 if fmt == "kitti" else 1]
+                pr = (rm.parse_kitti if fmt == "kitti" else rm.parse_euroc if fmt == "euroc" else rm.parse_tum)(
+                    open(fp["ref_path"]).read())[0 if fmt == "kitti" else 1]
+                L_raw = float(np.sum(np.linalg.norm(np.diff(pe, axis=0), axis=1)))
+                L_ref = float(np.sum(np.linalg.norm(np.diff(pr, axis=0), axis=1)))
+                if 0 < L_raw * 1.05 < 0.4 * L_ref:
+                    delta = float(rng.uniform(L_raw * 1.05, 0.4 * L_ref))
+            except Exception:
+                pass
     elif du == "r":
         delta = float(rng.uniform(0.1, 2.5))
     else:
@@ -392,6 +406,27 @@ def rpe_cli(run, case, rng, work):
     # the metric stage itself may legitimately refuse: no pair for delta, angle delta range, unit
     if got == "FilterException" and (not prec.calls or not prec.calls[0]["pairs"]):
         run.hit("L3 refusals agreed (no pair for this delta - selection is C10's business)")
+        # ... but a refusal is right only when the processed trajectory really has no pair
+        sel_p = (P.ref if from_ref else P.est).p
+        seg_p = np.linalg.norm(np.diff(sel_p, axis=0), axis=1) if len(sel_p) > 1 else np.zeros(0)
+        if du == "m" and len(seg_p) and P.cond < 1e3:
+            from vmon.props import C10
+            band = 1e-6 * (float(np.sum(seg_p)) + 1e-300)
+            if all_pairs:
+                C10.check_all_pairs_path(run, case, [], seg_p, delta, delta * tol, band)
+            else:
+                marks, acc = 0, 0.0
+                for sgm in seg_p:
+                    acc += float(sgm)
+                    if acc >= delta * (1 + 1e-6):
+                        marks, acc = marks + 1, 0.0
+                run.check(marks < 2, "a metre delta is refused only when the processed path has no pair", case,
+                          "evo_rpe refused delta %r m although the processed %s reaches it %d times in a row" %
+                          (delta, "reference" if from_ref else "estimate", marks), key="cli:refused-although-pairs-exist", argv=argv)
+        elif du == "f":
+            run.check(int(delta) >= len(sel_p), "a frame delta is refused only when it is not smaller than the pose count", case,
+                      "evo_rpe refused delta %d frames for %d processed poses" % (int(delta), len(sel_p)),
+                      key="cli:refused-although-pairs-exist", argv=argv)
         return None
     try:
         factor = C01.unit_factor(UNIT_OF[relation] if UNIT_OF[relation] != "%" else None, unit)
@@ -449,7 +484,63 @@ from vmon import threads as _threads
 k_threads = _threads.k_evaluation('rpe', 'RPE evaluation', 'threads:rpe-not-reentrant')
 
 
-KINDS = {"threads": k_threads, "direct": k_direct, "unequal": k_unequal, "cli": k_cli}
+def k_pair_ends(run, case):
+    """
+    main_rpe.rpe() reports, next to the values, the pose every value belongs to (the end pose of
+    its pair): timestamps[k] is the estimate's stamp at the end of pair k - also when several pairs
+    share an end pose, and when there happen to be exactly as many pairs as poses minus one.
+    Small trajectories, all-pairs mode with an angle delta; the delta is searched so that the
+    number of pairs equals the number of poses minus one whenever such a delta exists.
+    """
+    from evo import main_rpe
+    from evo.core import metrics
+    from evo.core.units import Unit
+    from evo.core.filters import FilterException
+    rng = run.rng(case)
+    n = int(rng.integers(4, 10))
+    ref = gen.traj_arrays(rng, n, rot_cls="uniform", stamp_cls="small")
+    for k in range(1, n):
+        if ref["t"][k] <= ref["t"][k - 1]:
+            ref["t"][k] = ref["t"][k - 1] + 1e-3
+    est = gen.perturbed_estimate(rng, ref, hostile=False)
+    poses = [rm.se3(Rk, pk) for Rk, pk in zip(est["R"], est["p"])]
+    chosen = None
+    for _ in range(60):
+        delta, tol = float(rng.uniform(0.2, 2.8)), float(rng.uniform(0.05, 0.6))
+        try:
+            with core.quiet():
+                pr = [tuple(map(int, x)) for x in metrics.id_pairs_from_delta(poses, delta, Unit.radians, tol, True)]
+        except FilterException:
+            continue
+        if chosen is None:
+            chosen = (delta, tol, pr)
+        if len(pr) == n - 1 and [j for _, j in pr] != list(range(1, n)):
+            chosen = (delta, tol, pr)
+            break
+    if chosen is None:
+        run.hit("pair ends: no delta with pairs found (not judged)")
+        return
+    delta, tol, pr = chosen
+    t_ref, t_est = gen.make_evo(ref, "xyzq", True), gen.make_evo(est, "se3" if rng.random() < .5 else "xyzq", True)
+    with core.quiet():
+        out = contracts.outcome_of(main_rpe.rpe, t_ref, t_est, metrics.PoseRelation.translation_part, delta, Unit.radians,
+                                   rel_delta_tol=tol, all_pairs=True)
+    coincide = len(pr) == n - 1
+    run.seen(case, core.digest(est["p"], est["R"], delta, tol), cls=["pair ends reported by rpe()", "pairs == poses - 1" if coincide else "other pair count"],
+             sample={"n": n, "delta": delta, "tol": tol, "pairs": pr[:6]})
+    if not run.check(out[0] == "ok", "rpe() returns", case, "rpe() raised %r" % (out[1], ), key="pair-ends:raised"):
+        return
+    A = out[1].np_arrays
+    e = np.asarray(A["error_array"], dtype=float)
+    ends = [j for _, j in pr]
+    ts = np.asarray(A.get("timestamps", []), dtype=float)
+    run.check(len(e) == len(pr) and ts.shape == e.shape and core.bits_equal(ts, est["t"][ends]),
+              "reported timestamps are the stamps of the pair end poses, one per value", case,
+              "rpe() selected the pairs %s but reports the stamps %s (pair ends have stamps %s)" %
+              (pr[:6], ts[:6].tolist(), est["t"][ends][:6].tolist()), key="pair-ends:wrong-timestamps")
+
+
+KINDS = {"pair_ends": k_pair_ends, "threads": k_threads, "direct": k_direct, "unequal": k_unequal, "cli": k_cli}
 
 
 def main(run):
@@ -463,13 +554,15 @@ def main(run):
                                all_pairs=True))
     for i in run.mine({"quick": 12, "thorough": 200}[run.tier]):
         k_threads(run, run.case("threads", i))
+    for i in run.mine({"quick": 120, "thorough": 3000}[run.tier]):
+        k_pair_ends(run, run.case("pair_ends", i))
     for i in run.mine({"quick": 100, "thorough": 2000}[run.tier]):
         k_unequal(run, run.case("unequal", i))
     for i in run.mine({"quick": 400, "thorough": 8000}[run.tier]):
         k_cli(run, run.case("cli", i))
     for i in run.mine({"quick": 8, "thorough": 160}[run.tier]):
         k_cli(run, run.case("cli", 10**6 + i, real=True))
-    run.need("concurrent rounds: RPE evaluation", "RPE: value == definition on its pair", "RPE: one value per selected pair",
+    run.need("reported timestamps are the stamps of the pair end poses, one per value", "concurrent rounds: RPE evaluation", "RPE: value == definition on its pair", "RPE: one value per selected pair",
              "RPE: pair end indices match the values in length and order",
              "RPE: unequal lengths refused", "RPE invariant under independent rigid motions",
              "RPE zero for equal relative motions", "zero reference distances skipped (ratio)",
